@@ -157,7 +157,7 @@ def make_targets(targets, res, jobs=16):
 def prop_targets(prop):
     """.vo targets for one property: its Properties file and its extraction file (if present)."""
     t = []
-    for rel in (f'theories/Properties/{prop}.v', f'theories/Extract/Ex{prop}.v'):
+    for rel in (f'theories/Properties/{prop}.v', f'theories/Properties/{prop}Findings.v', f'theories/Extract/Ex{prop}.v'):
         if os.path.exists(os.path.join(COQ, rel)):
             t.append(rel[:-2] + '.vo')
     return t
